@@ -344,9 +344,17 @@ def _check_tokenizer(ctx, tok, m, legacy_keys, origin):
         ctx.violate(f"MazeTokenizerModular.is_valid() = {tok.is_valid()} but its elements say {valid}: {tok.name}", dict(case, kind="is_valid"))
     try:
         ser = tok.serialize()
+        saved = json.dumps(ser, sort_keys=True, default=str)
         back = mt.MazeTokenizerModular.load(ser)
         if to_val(back) != val or back.name != tok.name or not (back == tok) or hash(back) != hash(tok):
             ctx.violate(f"save->load changes the tokenizer {tok.name} into {back.name}", dict(case, kind="saveload", got=to_val(back)))
+        # the saved representation belongs to the caller: loading must not consume it, and loading it again gives the same tokenizer
+        if json.dumps(ser, sort_keys=True, default=str) != saved:
+            ctx.violate(f"MazeTokenizerModular.load modified the saved representation it was given ({tok.name})", dict(case, kind="load-mutates-saved"))
+        else:
+            back2 = mt.MazeTokenizerModular.load(ser)
+            if to_val(back2) != val or back2.name != tok.name:
+                ctx.violate(f"loading the same saved tokenizer a second time gives {back2.name} instead of {tok.name}", dict(case, kind="saveload-twice"))
     except Exception as e:
         ser = None
         ctx.violate(f"save->load raises {type(e).__name__}: {e} for {tok.name}", dict(case, kind="saveload-raises"))
@@ -373,6 +381,41 @@ def _check_tokenizer(ctx, tok, m, legacy_keys, origin):
         ctx.disagree(f"legacy: model {m['legacy']} vs real {leg} for {tok.name}", case)
 
 
+def _legacy_neighbourhood(ctx, legacy_real, legacy_keys):
+    """every tokenizer that differs from a legacy image in exactly ONE element (coord / adjacency / target incl. none / path tokenizer):
+    none of them may report itself legacy-equivalent (unless it is another legacy image)"""
+    mt, at, utils = _mods()
+    V = at.MAZE_TOKENIZER_MODULAR_DEFAULT_VALIDATION_FUNCS
+    PS = mt.PromptSequencers
+    fams = dict(coord_tokenizer=list(utils.all_instances(mt.CoordTokenizers._CoordTokenizer, V)),
+                adj_list_tokenizer=list(utils.all_instances(mt.AdjListTokenizers._AdjListTokenizer, V)),
+                target_tokenizer=list(utils.all_instances(mt.TargetTokenizers._TargetTokenizer, V)),
+                path_tokenizer=list(utils.all_instances(mt.PathTokenizers._PathTokenizer, V)))
+    seen = set()
+    for mode, tok in legacy_real.items():
+        ps = tok.prompt_sequencer
+        base = {k: getattr(ps, k) for k in fams if hasattr(ps, k)}
+        variants = []
+        for fld, insts in fams.items():
+            if fld not in base: continue
+            for x in insts:
+                variants.append(type(ps)(**dict(base, **{fld: x})))
+        aop = {k: v for k, v in base.items() if k != "target_tokenizer"}
+        variants.append(PS.AOP(**aop)); variants.append(PS.AOTP(**dict(aop, target_tokenizer=fams["target_tokenizer"][0])))
+        for v in variants:
+            t = mt.MazeTokenizerModular(prompt_sequencer=v)
+            k = t.name
+            if k in seen: continue
+            seen.add(k)
+            ctx.case(["legacy-neighbour", k], nontrivial=True); ctx.count("legacy_neighbourhood")
+            want = json.dumps(to_val(t), sort_keys=True) in legacy_keys
+            got = bool(t.is_legacy_equivalent())
+            if got != want:
+                ctx.violate(f"is_legacy_equivalent() = {got} for {t.name}, which differs from from_legacy({mode}) in one element and "
+                            f"{'is' if want else 'is not'} the image of a legacy mode", dict(kind="legacy", val=to_val(t), origin="legacy-neighbourhood"))
+                return
+
+
 def _sampled(ctx, tables):
     mt, at, utils = _mods()
     # legacy table: model (regenerated) vs real, and the oracle's own reading
@@ -389,6 +432,7 @@ def _sampled(ctx, tables):
             ctx.violate(f"from_legacy({mode}) = {tok.name} is not a valid tokenizer", dict(kind="legacy-invalid", mode=mode, val=to_val(tok)))
         if mt.MazeTokenizerModular.from_legacy(mt.MazeTokenizer(tokenization_mode=getattr(mt.TokenizationMode, mode), max_grid_size=None)).name != tok.name:
             ctx.violate(f"from_legacy(MazeTokenizer({mode})) differs from from_legacy({mode})", dict(kind="legacy-object", mode=mode))
+    _legacy_neighbourhood(ctx, legacy_real, legacy_keys)
     if to_val(mt.MazeTokenizerModular()) != tables["default"]:
         ctx.disagree("default tokenizer differs between model table and MazeTokenizerModular()", dict(kind="default"))
     n_raw, n_valid = (400, 300) if ctx.quick else (4000, 3000)
